@@ -742,7 +742,7 @@ func init() {
 		docput := pact{Op: "dput", R: 0, K: "a", V: "o", T: "k1|"}
 		patchSync := e2sched{E2: e2p{Clients: 2, Type: "doc", Prefix: "joined", Tolerant: true}, Setup: []pact{docput, {Op: "sync", R: 0}, {Op: "dput", R: 1, K: "c", V: "p", T: "k1|"}},
 			Conc:  []pact{{Op: "patch", R: 0, T: "k1", V: `{"a":{"x":1},"b":[1,2]}`}, {Op: "sync", R: 1}, {Op: "seq", R: 0, Sub: []pact{{Op: "dput", R: 0, K: "d", V: "p", T: "k1|"}, {Op: "sync", R: 0}}}},
-			AtEnd: []string{"log", "converge", "snapshots", "nosnapop"}}
+			AtEnd: []string{"log", "converge", "snapshots", "nosnapop", "patched"}}
 		connectSync := e2sched{E2: e2p{Clients: 2, Type: "counter", Prefix: "joined", Tolerant: true}, Setup: []pact{inc(0), inc(1)},
 			Conc: []pact{{Op: "connect", R: 0}, {Op: "sync", R: 0}, {Op: "sync", R: 1}}, AtEnd: end}
 		giveup2 := same2
@@ -968,4 +968,4 @@ var restRace = e2sched{E2: e2p{Clients: 2, Type: "doc", Tolerant: true},
 		{Op: "seq", R: 0, Sub: []pact{{Op: "opensync", R: 0, T: "k1", K: "soc"}, {Op: "dput", R: 0, K: "a", V: "o", T: "k1|"}, {Op: "sync", R: 0}}},
 		{Op: "patch", R: 1, T: "k1", V: `{"b":[1,2]}`},
 	},
-	AtPoint: []string{"snapshots"}, AtEnd: []string{"log", "converge", "snapshots", "nosnapop"}}
+	AtPoint: []string{"snapshots"}, AtEnd: []string{"log", "converge", "snapshots", "nosnapop", "patched"}}
